@@ -141,6 +141,18 @@ def gen_table(rng, stream, i, names, vers, build, top=False, pdep=0.45):
             if rng.random() < 0.4:
                 blk += [{"k": "raw", "text": "} else {"}, {"k": "cmd", "text": "envSet(%s_FL, 2)" % n.upper()}]
             blk.append({"k": "raw", "text": rng.choice(["}", "  }"])})
+            later = [m for m in names[i + 1:] if stream != "cf" or m in build]
+            if rng.random() < 0.25 and later:
+                # a setup line INSIDE the table's own block (D74 / O8): in a block that applies a declared product (the expander nests
+                # its `if (type …) {` block there; harmless without an else branch, D74(b) with one); in a block that does not apply
+                # (`flavor == Darwin`) a required product that is not there at all (D74(a): the expansion refuses it)
+                if "Darwin" in blk[0]["text"]:
+                    inner = {"k": "setup", "optional": False, "name": rng.choice(ABSENT), "spec": None, "flags": [], "deco": {}, "in_block": "inactive"}
+                else:
+                    m = rng.choice(later)
+                    inner = {"k": "setup", "optional": False, "name": m, "spec": gen_spec(rng, stream, m, vers, build), "flags": [], "deco": {},
+                             "in_block": "active_else" if len(blk) > 3 else "active"}
+                blk.insert(rng.randint(1, 2), inner)
             lines[at:at] = blk
     return lines
 
@@ -168,6 +180,10 @@ def gen_graph(rng, stream):
     g = {"names": names, "decl": decl, "tags": tags, "build": build, "top": [top, topv], "stream": stream}
     if stream == "cf" and rng.random() < 0.3:
         add_unsetup_lines(rng, g)
+    if stream == "cf" and not lonely and rng.random() < 0.18:
+        add_top_unsetup_lines(rng, g)
+    if rng.random() < 0.12:
+        add_tag_named_version(rng, g)
     return g
 
 
@@ -206,6 +222,140 @@ def add_unsetup_lines(rng, g):
         x = rng.choice(withdeps) if withdeps and rng.random() < 0.7 else rng.choice(below)
         lines.insert(rng.randint(i + 1, len(lines)), {"k": "unsetup", "optional": rng.random() < 0.5, "name": x,
                                                        "flags": ["-j"] if rng.random() < 0.65 else []})
+
+
+TAGNAMES = ["current", "beta"]      # recognised tags of the harness's startup file (common.mkstacks: extra_tags=("beta",))
+
+
+def add_tag_named_version(rng, g):
+    """A declared version whose NAME is a recognised tag name, while the tag of that name is assigned to another version of
+    the product: Eups.findSetupVersion must report the version recorded in SETUP_<PRODUCT> (it asks whether a version of
+    that name is declared before it takes the name for a tag).  cf stream: the tag-named version is the build version, every
+    line for the product names it explicitly; arb stream: some version is renamed and the lines that named it follow."""
+    vers = {}
+    for n, v, _ in g["decl"]:
+        vers.setdefault(n, []).append(v)
+    cf = g["stream"] == "cf"
+    cands = [n for n in g["names"][1:] if len(vers[n]) >= 2]
+    if not cands:
+        return
+    m = rng.choice(cands)
+    old = g["build"][m] if cf else rng.choice(vers[m])
+    tname = rng.choice(TAGNAMES)
+    other = rng.choice([v for v in vers[m] if v != old])
+    for d in g["decl"]:
+        if d[0] == m and d[1] == old:
+            d[1] = tname
+        for l in d[2]:
+            if l["k"] == "setup" and l["name"] == m and (cf or (l.get("spec") or {}).get("v") == old):
+                l["spec"] = {"v": tname}
+    if cf:
+        g["build"][m] = tname
+    if cf or m in g["tags"]:
+        g["tags"][m] = other if (tname == "current" or rng.random() < 0.5 or g["tags"].get(m) == old) else g["tags"][m]
+    g["tag_named"] = {"product": m, "name": tname, "tagged": other}
+
+
+def level0(lines, lo=0):
+    """positions >= lo at which a line can be inserted outside every `if` block of the table"""
+    out, depth = [], 0
+    for i in range(len(lines) + 1):
+        if i < len(lines):
+            t = render_line(lines[i]).split("#")[0].strip()
+            closes, opens = t.startswith("}"), t.endswith("{")
+        else:
+            closes = opens = False
+        if depth == 0 and not closes and i >= lo:
+            out.append(i)
+        depth += (1 if opens else 0) - (1 if closes else 0)
+    return out or [len(lines)]
+
+
+def add_top_unsetup_lines(rng, g):
+    """unsetupRequired / unsetupOptional lines in the table that is going to be expanded (D73: the expander took them for
+    setup lines).  Three shapes that leave the build environment complete: (a) `unsetupOptional(y)` of a product that is not
+    there; (b) a leaf product m that nothing else in the closure needs, set up by an optional line of the top table (added if
+    there is none) and taken away again by a later line; (c) a leaf product of the closure taken away and required again at
+    the end of the table."""
+    topn, topv = g["top"]
+    build = g["build"]
+    lines = [l for n, v, l in g["decl"] if n == topn and v == topv][0]
+    leaves = [m for m in g["names"][1:] if m in build and not reach(g, m, build[m])]
+    r = rng.random()
+    if r < 0.35 or not leaves:
+        lines.insert(rng.choice(level0(lines)), {"k": "unsetup", "optional": True, "name": rng.choice(ABSENT), "flags": [], "top": "a"})
+        return
+    if r < 0.7:
+        for m in rng.sample(leaves, len(leaves)):
+            own = [i for i, l in enumerate(lines) if l["k"] == "setup" and l["name"] == m]
+            needed = set()
+            for l in lines:
+                if l["k"] == "setup" and l["name"] != m and l["name"] in build and "--external" not in (l.get("flags") or []):
+                    if "-j" not in (l.get("flags") or []):
+                        needed |= set(reach(g, l["name"], build[l["name"]]))
+            if m in needed or len(own) > 1 or (own and (not lines[own[0]]["optional"] or (lines[own[0]].get("flags") or []))):
+                continue
+            if not own:
+                lines.insert(rng.choice(level0(lines)), {"k": "setup", "optional": True, "name": m, "spec": None, "flags": [], "deco": {}})
+                own = [i for i, l in enumerate(lines) if l["k"] == "setup" and l["name"] == m]
+            lines.insert(rng.choice(level0(lines, own[0] + 1)), {"k": "unsetup", "optional": rng.random() < 0.4, "name": m,
+                                                               "flags": ["-j"] if rng.random() < 0.3 else [], "top": "b"})
+            return
+    closure = reach(g, topn, topv)
+    cands = [m for m in leaves if m in closure]
+    if not cands:
+        lines.append({"k": "unsetup", "optional": True, "name": rng.choice(ABSENT), "flags": [], "top": "a"})
+        return
+    m = rng.choice(cands)
+    lines.append({"k": "unsetup", "optional": rng.random() < 0.5, "name": m, "flags": [], "top": "c"})
+    lines.append({"k": "setup", "optional": False, "name": m, "spec": None, "flags": [], "deco": {}})
+
+
+HARNESS_FLAVOR = "Linux"
+
+
+def inactive_setup_lines(lines, flavor=HARNESS_FLAVOR):
+    """The setup / unsetup lines of a table that stand inside an `if (flavor == F) {` block (or its else branch) whose
+    condition is false for this flavor -- lines the table does not apply here.  Only the block shapes the tables of this
+    harness use: `if (flavor == F) {`, `} else {`, `}`."""
+    out, active = [], [True]
+    for l in lines:
+        if l["k"] == "raw":
+            t = l["text"].split("#")[0].strip()
+            m = re.match(r"^if\s*\(\s*flavor\s*==\s*(\S+?)\s*\)\s*{$", t)
+            if m:
+                active.append(active[-1] and m.group(1) == flavor)
+            elif re.match(r"^}\s*else\s*{$", t) and len(active) > 1:
+                cur = active.pop()
+                active.append(active[-1] and not cur)
+            elif t == "}" and len(active) > 1:
+                active.pop()
+        elif l["k"] in ("setup", "unsetup") and not active[-1]:
+            out.append(l)
+    return out
+
+
+def setup_in_block_with_else(lines):
+    """True when a setup / unsetup line of the table stands inside an `if` block that has an else branch: the expander then
+    nests its `if (type …) {` block inside that block, which the (nesting-free) table parser reads with the else branch
+    turned into unconditional commands."""
+    depth, has_setup, has_else = 0, False, False
+    for l in lines:
+        if l["k"] == "raw":
+            t = l["text"].split("#")[0].strip()
+            if re.match(r"^if\s*\(.*\)\s*{$", t):
+                depth += 1
+                if depth == 1:
+                    has_setup = has_else = False
+            elif re.match(r"^}\s*else\b.*{$", t):
+                has_else = True
+            elif t == "}" and depth > 0:
+                depth -= 1
+                if depth == 0 and has_setup and has_else:
+                    return True
+        elif l["k"] in ("setup", "unsetup") and depth > 0:
+            has_setup = True
+    return depth > 0 and has_setup and has_else          # (a block left open at the end of the table counts as well)
 
 
 def has_unsetup(case):
@@ -346,7 +496,12 @@ def gen_case(rng, stream=None):
     # undeclare one dependency between the build and the expansion: findSetupProduct then finds nothing while
     # getSetupVersion still reports the version (the model's spv / sv); outside the property's premise -> oracle (i) + never_foreign only
     case["tamper"] = [rng.choice(g["names"][1:])] if rng.random() < 0.07 else []
-    case["cli_check"] = rng.random() < 0.25          # also run `eups expandtable` itself and compare with the API call
+    if case["tamper"] and (g.get("tag_named") or {}).get("product") == case["tamper"][0]:
+        # a set-up version named like a tag AND undeclared before the expansion: findSetupVersion then (by design: old records
+        # held tag names) takes the recorded name for the tag and reports the tagged version -- outside every premise (O6)
+        case["tamper"] = []
+    case["cli_check"] = rng.random() < 0.3           # also run `eups expandtable` itself and compare with the API call
+    case["cli_mode"] = rng.choice(["stdout", "stdout", "inplace", "outdir", "stdin", "warn"])   # where the command reads / writes
     case["expanded_deps"] = []
     if stream == "cf" and rng.random() < 0.4 and not has_unsetup(case):       # installed products usually carry expanded tables
         case["expanded_deps"] = [[n, v] for n, v, _ in g["decl"] if (n, v) != (topn, topv) and rng.random() < 0.6]
@@ -375,10 +530,10 @@ def write_product(stack, n, v, text):
         f.write(VERSION_FILE % {"n": n, "v": v})
 
 
-def write_current(stack, n, v):
+def write_current(stack, n, v, tag="current"):
     os.makedirs(os.path.join(stack, "ups_db", n), exist_ok=True)
-    with open(os.path.join(stack, "ups_db", n, "current.chain"), "w") as f:
-        f.write(CHAIN_FILE % {"n": n, "v": v})
+    with open(os.path.join(stack, "ups_db", n, tag + ".chain"), "w") as f:
+        f.write((CHAIN_FILE % {"n": n, "v": v}).replace("CHAIN = current", "CHAIN = " + tag))
 
 
 def drop_caches(userdata):
@@ -466,6 +621,9 @@ def install(stack, userdata, case):
         write_product(stack, n, v, expanded_form(case, n, v) if (n, v) in exp else table_text(lines, fn))
     for n, v in case["tags"].items():
         write_current(stack, n, v)
+    tn = case.get("tag_named")
+    if tn and tn["name"] != "current":
+        write_current(stack, tn["product"], tn["tagged"], tag=tn["name"])
 
 
 def evolve(stack, userdata, case):
